@@ -123,6 +123,13 @@ def table_for(ev, fed):
     elif f in ("xts_enc", "xts_dec"):
         if len(fed) >= 16:
             K.xts(t, c, g("key")[:16], g("key")[16:], g("iv"), fed, f == "xts_enc")
+    elif f in ("xts_units_enc", "xts_units_dec"):
+        u = ev["unit"]
+        if len(fed) % u == 0:
+            iv = g("iv")
+            for j in range(len(fed) // u):
+                tw = (int.from_bytes(iv, "little") + j) % (1 << 128)
+                K.xts(t, c, g("key")[:16], g("key")[16:], tw.to_bytes(16, "little"), fed[u * j:u * j + u], f == "xts_units_enc")
     elif f == "cbc_mac":
         K.cbc_mac(t, c, g("key"), fed)
     elif f == "gcm_enc":
@@ -166,6 +173,7 @@ def annotate(events):
     if head["e"] == "Call":
         head["T"] = table_for(head, bytes(head.get("in", [])))
     elif head["e"] == "Init":
-        fed = b"".join(bytes(e["in"]) for e in events if e["e"] == "Update" and e.get("rc") == 1)
+        fed = b"".join(bytes(e["in"]) for e in events if e["e"] == "Update" and (e.get("rc") == 1 or len(e["in"])))
+        fed += b"".join(bytes(e.get("rest", [])) for e in events if e["e"] == "Finish")
         head["T"] = table_for(head, fed)
     return events
